@@ -20,7 +20,7 @@ from typing import Any, Callable, Iterable, Iterator
 
 from ..engine.report import AnalysisError
 from ..engine.resolver import FuncNode
-from ..engine.util import canon, u
+from ..engine.util import canon, reaching_defs, u
 
 _COMP = (ast.ListComp, ast.SetComp, ast.DictComp, ast.GeneratorExp)
 _DEFS = (ast.FunctionDef, ast.AsyncFunctionDef, ast.ClassDef)
@@ -441,3 +441,66 @@ def const_bool(e: ast.AST | None) -> bool | None:
     if isinstance(e, ast.Constant) and isinstance(e.value, bool):
         return e.value
     return None
+
+
+# ------------------------------------------------------------------------------------ flow-sensitive expansion
+def expand_at(cfg: Any, x: Expander, nid: int, expr: ast.AST, depth: int = 0) -> ast.AST:
+    """Like Expander.expand, but a local with several bindings is also replaced when exactly one plain
+    binding `name = value` reaches CFG node `nid` (flow-sensitive; the value is expanded at its own node)."""
+    expr = copy.deepcopy(expr)
+    shadow = _bound_inside(expr)
+
+    class T(ast.NodeTransformer):
+        def visit_Name(self, node: ast.Name) -> ast.AST:  # noqa: N802
+            if isinstance(node.ctx, ast.Load) and node.id not in shadow and depth < 8 and x.is_local(node.id) \
+                    and x.unstable(node.id) and node.id not in x.params:
+                defs = reaching_defs(cfg, nid, node.id)
+                if len(defs) == 1:
+                    d = cfg.nodes[defs[0]]
+                    a = d.ast
+                    val = None
+                    if d.kind == "stmt" and isinstance(a, ast.Assign) and len(a.targets) == 1 and isinstance(a.targets[0], ast.Name):
+                        val = a.value
+                    elif d.kind == "stmt" and isinstance(a, ast.AnnAssign) and isinstance(a.target, ast.Name) and a.value is not None:
+                        val = a.value
+                    if val is not None and not any(isinstance(n, ast.Name) and n.id == node.id for n in ast.walk(val)):
+                        return ast.copy_location(expand_at(cfg, x, defs[0], val, depth + 1), node)
+            return node
+
+    wrapper = ast.Expr(value=expr)
+    T().visit(wrapper)
+    return x.expand(wrapper.value)
+
+
+# ------------------------------------------------------------------------------------ value helpers
+def splice_value_calls(expr: ast.AST, resolve: Callable[[ast.Call], tuple[FuncNode, list[str]] | None], rounds: int = 3) -> ast.AST:
+    """Replace calls of helpers that merely compute a value (straight-line local bindings and one
+    returned expression, loops folded) by that expression with the arguments substituted.
+    `resolve(call)` returns (helper node, its parameter names without self) or None."""
+    expr = copy.deepcopy(expr)
+    for _ in range(rounds):
+        changed = False
+
+        class T(ast.NodeTransformer):
+            def visit_Call(self, node: ast.Call) -> ast.AST:  # noqa: N802
+                nonlocal changed
+                self.generic_visit(node)
+                r = resolve(node)
+                if r is None:
+                    return node
+                helper, ps = r
+                b = bind_call(node, ps)
+                if b is None or set(b) != set(ps) or isinstance(helper, ast.AsyncFunctionDef):
+                    return node
+                val = result_expr(helper)
+                if val is None:
+                    return node
+                changed = True
+                return ast.copy_location(subst_names(val, b), node)
+
+        wrapper = ast.Expr(value=expr)
+        T().visit(wrapper)
+        expr = wrapper.value
+        if not changed:
+            break
+    return expr
